@@ -135,9 +135,10 @@ func pairwisePat(m, q int) int {
 }
 
 type filler struct {
-	lenSel  int // string / vector lengths are (lenSel + k) mod 5 resp. mod 3, k = running counter
-	counter int
-	variant int // which implementing constructor is chosen for interface-typed fields
+	lenSel   int // string / vector lengths are (lenSel + k) mod 5 resp. mod 3, k = running counter
+	counter  int
+	variant  int  // which implementing constructor is chosen for interface-typed fields
+	noChoice bool // enum-typed leaves take their first member instead of a symbolic choice (content is irrelevant)
 }
 
 func (f *filler) nextLen(mod int, nonzero bool) int {
@@ -329,6 +330,9 @@ func (f *filler) enumMember(t reflect.Type, nonzero bool) uint32 {
 			verifrt.Assume(x != 0)
 		}
 		return x
+	}
+	if f.noChoice {
+		return members[0]
 	}
 	return members[verifrt.Choice(len(members))]
 }
